@@ -607,9 +607,8 @@ func condFacts(e ast.Expr, truth bool, out *[]condFact) {
 			condFacts(x.Y, truth, out)
 			return
 		}
-		if x.Op == token.LAND || x.Op == token.LOR {
-			return // nothing definite
-		}
+		// a true disjunction / false conjunction: nothing definite about the operands,
+		// the compound itself is kept as one fact
 	}
 	*out = append(*out, condFact{e, truth})
 }
